@@ -442,6 +442,15 @@ class Interp:
                 return ('iter', self.serial, args[0][1]), args
             if name == 'into_iter' and len(args) == 1 and args[0][0] == 'iter':
                 return args[0], args
+            # Peekable / Enumerate over a concrete element list
+            if name == 'peekable' and len(args) == 1 and args[0][0] == 'iter' and path_endswith(tr, 'iter::Iterator'):
+                return args[0], args
+            if name in ('peek', 'peek_mut') and len(args) == 1 and args[0][0] == 'iter' and 'Peekable' in d:
+                i = (env.get('__iter') or {}).get(args[0][1], 0)
+                return (SOME(args[0][2][i]) if i < len(args[0][2]) else NONE), args
+            if name == 'enumerate' and len(args) == 1 and args[0][0] == 'iter' and path_endswith(tr, 'iter::Iterator') and (env.get('__iter') or {}).get(args[0][1], 0) == 0:
+                self.serial += 1
+                return ('iter', self.serial, tuple(('tuple', (C(i), e)) for i, e in enumerate(args[0][2]))), args
             if name in ('find', 'any', 'all', 'position') and len(args) == 2 and args[0][0] == 'iter' and args[1][0] in ('closure', 'fn') \
                     and path_endswith(tr, 'iter::Iterator') and depth < self.max_depth:
                 cur = dict(env.get('__iter') or {})
@@ -459,6 +468,12 @@ class Interp:
                     env['__iter'] = cur
                     return SOME(args[0][2][i]), args
                 return NONE, args
+        # `f(args)` where f: impl Fn* and its value is known on this path
+        if name in ('call', 'call_mut', 'call_once') and path_endswith(tr, ('ops::Fn', 'ops::FnMut', 'ops::FnOnce')[('call', 'call_mut', 'call_once').index(name)]) \
+                and len(args) == 2 and args[0][0] in ('fn', 'closure') and args[1][0] == 'tuple' and depth < self.max_depth:
+            r_ = self.apply_callable(args[0], list(args[1][1]), depth)
+            if r_ is not None:
+                return r_, args
         # Option / Result combinators on known values, applying closures / constructor fn items abstractly
         if not c.get('local') and ('option::Option' in d or 'result::Result' in d) and args and args[0][0] == 'adt' and depth < self.max_depth:
             r_ = self._combinator(fn, name, args, depth)
@@ -791,8 +806,28 @@ class Interp:
                 if t.get('target') is None:
                     out.append((('diverge',), effects))
                     return
+                res = None
+                if fv[0] in ('fn', 'closure') and depth < self.max_depth:
+                    # a call through a function pointer whose value is known on this path: the same as the direct call
+                    res = self.apply_callable(fv, list(args), depth)
+                if isinstance(res, tuple) and res and res[0] == 'paths':
+                    live = [p_ for p_ in res[1] if p_[0] != ('diverge',)]
+                    for p_ in res[1]:
+                        if p_[0] == ('diverge',):
+                            out.append((('diverge',), effects + p_[1]))
+                    if not live:
+                        return
+                    if len(live) > 1:
+                        for val, e2 in live:
+                            env2 = dict(env)
+                            if not t['dest']['p']:
+                                env2[t['dest']['l']] = val
+                            self._run(fn, t['target'], env2, depth, out, effects + e2, dict(edges))
+                        return
+                    effects = effects + live[0][1]
+                    res = live[0][0]
                 if not t['dest']['p']:
-                    env[t['dest']['l']] = ('app', '<indirect>', (fv,) + args)
+                    env[t['dest']['l']] = res if res is not None else ('app', '<indirect>', (fv,) + args)
                 nb = t['target']
             elif k in ('drop', 'assert'):
                 nb = t['target']
